@@ -776,6 +776,30 @@ impl SubCheck for AcrossThreads {
 					}));
 					continue;
 				}
+				// with three or more callers the second one subscribes (the transport answers with the method name as the
+				// subscription id) and drops each subscription at once
+				if t == 1 && threads >= 3 {
+					hs.push(tokio::spawn(async move {
+						let mut bad = vec![];
+						for i in 0..per / 2 + 1 {
+							let name = format!("s_{i}");
+							match c.subscribe::<Value, _>(&name, rpc_params![], "unsub").await {
+								Ok(sub) => {
+									let kind = format!("{:?}", sub.kind());
+									if !kind.contains(&format!("\"{name}\"")) {
+										bad.push(format!("subscribe {name} => a subscription of kind {kind}"));
+									}
+								}
+								Err(e) => bad.push(format!("subscribe {name} => {e:?}")),
+							}
+							if bad.len() > 2 {
+								break;
+							}
+						}
+						bad
+					}));
+					continue;
+				}
 				hs.push(tokio::spawn(async move {
 					let mut bad = vec![];
 					for i in 0..per {
